@@ -26,7 +26,7 @@ Deliverables in /scratch/seeds/out-{id}/:
  - demo.rs : an integration test file (it will be copied to tests/seed_demo.rs and run with `cargo test --offline --test seed_demo`) with 1-4 tests that PASS on the unchanged worktree and FAIL with your patch, demonstrating the property violation through the public API only.
  - meta.json : {{"property":"{id}","summary":..., "needs_to_manifest": what input / configuration / call sequence is needed to see it, "files_touched":[...], "demo_cmd":"cp demo.rs tests/seed_demo.rs && cargo test --offline --test seed_demo", "suite_before":..., "suite_after":..., "demo_without_patch":..., "demo_with_patch":...}}
 
-You must confirm yourself: (a) `cargo build --offline` succeeds with the patch; (b) the full suite `CARGO_NET_OFFLINE=true cargo test --workspace --no-fail-fast --offline` gives the same set of passing tests with and without the patch (the baseline has 3249 passing and 118 always-failing tests; compare the sorted lists of "test ... ok" lines; a run takes several minutes; other agents use the machine too); (c) the demo passes without and fails with the patch. Leave the worktree clean (git checkout -- . and remove tests/seed_demo.rs) when done. Report briefly what you changed and the confirmation results."""
+You must confirm yourself: (a) `cargo build --offline` succeeds with the patch; (b) the full suite `CARGO_NET_OFFLINE=true cargo test --workspace --no-fail-fast --offline` gives the same set of passing tests with and without the patch (the baseline has 3249 passing and 118 always-failing tests; compare the sorted lists of "test ... ok" lines; a run takes several minutes; other agents use the machine too); (c) the demo passes without and fails with the patch. Do NOT use `git stash` (the stash is shared by all worktrees of the repository and other agents work in theirs): to switch your change off and on use `git diff > /scratch/seeds/out-{id}/patch.diff; git checkout -- .` and `git apply /scratch/seeds/out-{id}/patch.diff`. Leave the worktree clean (git checkout -- . and remove tests/seed_demo.rs) when done. Report briefly what you changed and the confirmation results."""
 for pid in sys.argv[1:]:
     p = props[pid]
     taken = []
